@@ -46,6 +46,13 @@ CLAIMS = {
          "architecture version / SCTLR.A,U / HSCTLR.A, byte-wise unaligned accesses wrapping modulo 2^32, little-endian fetch with the "
          "second halfword fetched iff hw1<15:11> in {11101,11110,11111}, and the frame; store-then-load follows with C16's byte-level "
          "contract and the involution of the byte reversal (C17).", "DESIGN.md 10 C13"),
+ 'C14': ("translate_address_p with check_permission, data_abort (PMSA), encode_pmsafsr, default_tex_decode and "
+         "default_memory_attributes interpreted from source against the B5 pseudocode for every MPU programming (all DRSR/DRBAR/DRACR "
+         "values, DRegion, SCTLR.M/BR/AFE/C/V), address, direction, privilege: region priority (last hit), size/base match, subregion "
+         "disable, AP table, background rule, DFSR.FS/WnR + DFAR on abort, memory type/attributes, frame. Unbounded in the number of "
+         "regions: loop head, inductive step for an arbitrary region and arbitrary accumulators, and the code after the loop for an "
+         "arbitrary scan result; unrolled N<=2 instances cross-check the cut points. LR_abt/SPSR_abt of the abort entry are C11.",
+         "DESIGN.md 10 C14, 14"),
  'C16': ("MemoryControllerHub.__getitem__/__setitem__ with MemoryController/RAM/to_int/from_int inlined, over controller lists of "
          "length 0..3 (thorough 0..5) with symbolic bounds, sizes and contents and an arbitrary 40-bit address: little-endian value of "
          "exactly the addressed bytes, every other byte of every device unchanged (extensional at an arbitrary probe index), unmapped "
@@ -68,7 +75,6 @@ NOT_YET = {
  'C06': 'class-selection obligation exists only for the encodings that have a table row so far (about 180 of 603) and the UNDEFINED-space obligation needs the complete table; not claimed yet',
  'C07': 'as C06 for Thumb; not claimed yet',
  'C09': 'operation specs of the multiply/saturating/SIMD/bit-field family not written yet; not claimed',
- 'C14': 'L4 units for PMSA translation not built yet',
  'C15': 'L4 units for VMSA translation not built yet',
  'C20': 'frame/ownership units and the configuration-singleton finding not built yet',
 }
